@@ -12,6 +12,15 @@ pub fn child_mode(mode: &str, extra: &[String]) -> Option<i32> {
     match mode {
         "decode-batch" => Some(c09::child_decode_batch(extra)),
         "c19-reader" => Some(crate::sim::c19::reader_main(extra)),
+        "resurrect-experiment" => {
+            let rt = tokio::runtime::Builder::new_multi_thread().worker_threads(2).enable_all().build().unwrap();
+            rt.block_on(resurrect_experiment(extra));
+            Some(0)
+        }
+        "crsql-order-experiment" => {
+            crsql_order_experiment();
+            Some(0)
+        }
         "probe-rangemap" => {
             probe_rangemap();
             Some(0)
@@ -40,4 +49,133 @@ pub fn probe_rangemap() {
     m.insert(V(2)..=V(2), "A");
     m.insert(V(3)..=V(3), "C");
     println!("3: {m:?}");
+}
+
+
+/// Standalone look at the loaded cr-sqlite extension (no corrosion code involved): a row is
+/// inserted, deleted, re-inserted (causal length 3) and one of its columns updated; a second
+/// database receives the update's change before the re-insert's changes.
+pub fn crsql_order_experiment() {
+    use klukai_types::sqlite::CrConn;
+    let mk = || {
+        let c = CrConn::init(rusqlite::Connection::open_in_memory().unwrap()).unwrap();
+        c.execute_batch("CREATE TABLE t1 (id INTEGER NOT NULL PRIMARY KEY, a TEXT NOT NULL DEFAULT '', b INTEGER NOT NULL DEFAULT 0, c TEXT); SELECT crsql_as_crr('t1');").unwrap();
+        c
+    };
+    type Row = (String, Vec<u8>, String, rusqlite::types::Value, i64, i64, Vec<u8>, i64, i64);
+    let a = mk();
+    for sql in ["INSERT INTO t1 (id,a,b) VALUES (3,'one',1)", "DELETE FROM t1 WHERE id=3", "INSERT INTO t1 (id,a,b) VALUES (3,'two',2)", "UPDATE t1 SET c='cee' WHERE id=3"] {
+        a.execute_batch(&format!("BEGIN; {sql}; COMMIT;")).unwrap();
+    }
+    let rows: Vec<Row> = a
+        .prepare(r#"SELECT "table",pk,cid,val,col_version,db_version,site_id,cl,seq FROM crsql_changes ORDER BY db_version,seq"#)
+        .unwrap()
+        .query_map([], |r| Ok((r.get(0)?, r.get(1)?, r.get(2)?, r.get(3)?, r.get(4)?, r.get(5)?, r.get(6)?, r.get(7)?, r.get(8)?)))
+        .unwrap()
+        .map(|x| x.unwrap())
+        .collect();
+    for r in &rows {
+        println!("origin: {} {:?} cv{} dbv{} cl{} seq{}", r.2, r.3, r.4, r.5, r.7, r.8);
+    }
+    let apply = |c: &CrConn, rs: &[&Row]| {
+        for r in rs {
+            c.execute(r#"INSERT INTO crsql_changes ("table",pk,cid,val,col_version,db_version,site_id,cl,seq) VALUES (?,?,?,?,?,?,?,?,?)"#, rusqlite::params![r.0, r.1, r.2, r.3, r.4, r.5, r.6, r.7, r.8]).unwrap();
+        }
+    };
+    let show = |name: &str, c: &CrConn| {
+        let t: Vec<String> = c.prepare("SELECT id,a,b,quote(c) FROM t1").unwrap().query_map([], |r| Ok(format!("({},{},{},{})", r.get::<_, i64>(0)?, r.get::<_, String>(1)?, r.get::<_, i64>(2)?, r.get::<_, String>(3)?))).unwrap().map(|x| x.unwrap()).collect();
+        println!("{name}: table {t:?}");
+        let ch: Vec<String> = c.prepare("SELECT cid, quote(val), col_version, db_version, cl, seq FROM crsql_changes").unwrap().query_map([], |r| Ok(format!("{} {} cv{} dbv{} cl{} seq{}", r.get::<_, String>(0)?, r.get::<_, String>(1)?, r.get::<_, i64>(2)?, r.get::<_, i64>(3)?, r.get::<_, i64>(4)?, r.get::<_, i64>(5)?))).unwrap().map(|x| x.unwrap()).collect();
+        println!("{name}: changes {ch:?}");
+    };
+    let max = rows.iter().map(|r| r.5).max().unwrap();
+    let upd: Vec<&Row> = rows.iter().filter(|r| r.5 == max).collect();
+    let reins: Vec<&Row> = rows.iter().filter(|r| r.5 == max - 1).collect();
+    let b = mk();
+    apply(&b, &upd);
+    show("update first, after the update", &b);
+    apply(&b, &reins);
+    show("update first, after the re-insert", &b);
+    let c = mk();
+    apply(&c, &reins);
+    apply(&c, &upd);
+    show("origin order", &c);
+    // the receiver has its own live row with the same key (causal length 1)
+    let d = mk();
+    d.execute_batch("BEGIN; INSERT INTO t1 (id,a,b,c) VALUES (3,'mine',7,'mine-c'); COMMIT;").unwrap();
+    show("receiver with its own row (cl 1), before", &d);
+    apply(&d, &upd);
+    show("receiver with its own row (cl 1), after the update (cl 3)", &d);
+    apply(&d, &reins);
+    show("receiver with its own row (cl 1), after update then re-insert", &d);
+    let e = mk();
+    e.execute_batch("BEGIN; INSERT INTO t1 (id,a,b,c) VALUES (3,'mine',7,'mine-c'); COMMIT;").unwrap();
+    apply(&e, &reins);
+    apply(&e, &upd);
+    show("receiver with its own row (cl 1), origin order", &e);
+}
+
+
+/// A column change with causal length 3 for a row this node has never seen, delivered through
+/// the real ingest function, alone or together with other changesets in one call.
+pub async fn resurrect_experiment(extra: &[String]) {
+    use crate::sim::{NodeOpts, new_node};
+    use klukai_types::{
+        actor::ActorId,
+        api::{ColumnName, SqliteValue, TableName},
+        base::{CrsqlDbVersion, CrsqlSeq},
+        broadcast::{ChangeSource, ChangeV1, Changeset, Timestamp},
+        change::Change,
+        pubsub::pack_columns,
+    };
+    let with_other = extra.first().map(|s| s == "batch").unwrap_or(false);
+    let node = new_node(0, NodeOpts { serve_sync: false, ..Default::default() }).await.unwrap();
+    let actor = ActorId(uuid::Uuid::from_bytes([9; 16]));
+    let mk = |version: u64, table: &str, id: i64, cid: &str, val: SqliteValue, cv: i64, cl: i64| ChangeV1 {
+        actor_id: actor,
+        changeset: Changeset::Full {
+            version: CrsqlDbVersion(version),
+            changes: vec![Change {
+                table: TableName(table.into()),
+                pk: pack_columns(&[SqliteValue::Integer(id)]).unwrap(),
+                cid: ColumnName(cid.into()),
+                val,
+                col_version: cv,
+                db_version: CrsqlDbVersion(version),
+                seq: CrsqlSeq(0),
+                site_id: actor.to_bytes(),
+                cl,
+            }],
+            seqs: CrsqlSeq(0)..=CrsqlSeq(0),
+            last_seq: CrsqlSeq(0),
+            ts: Timestamp::from(version << 32),
+        },
+    };
+    let mut batch = vec![(mk(7, "t1", 3, "c", SqliteValue::Text("cee".into()), 2, 3), ChangeSource::Sync)];
+    if with_other {
+        batch.push((mk(4, "t3", 50, "payload", SqliteValue::Text("x".into()), 1, 1), ChangeSource::Sync));
+        batch.insert(0, (mk(2, "t3", 51, "payload", SqliteValue::Text("y".into()), 1, 1), ChangeSource::Sync));
+    }
+    if extra.first().map(|s| s == "partial").unwrap_or(false) {
+        // plus a partial chunk (seq 2 of 0..=2) of an older version touching the same row
+        let mut p = mk(1, "t1", 3, "c", SqliteValue::Text("old".into()), 1, 1);
+        if let Changeset::Full { changes, seqs, last_seq, .. } = &mut p.changeset {
+            changes[0].seq = CrsqlSeq(2);
+            *seqs = CrsqlSeq(2)..=CrsqlSeq(2);
+            *last_seq = CrsqlSeq(2);
+        }
+        batch.push((p, ChangeSource::Sync));
+    }
+    node.deliver(batch).await.unwrap();
+    let c = node.ro().unwrap();
+    let rows: Vec<String> = c
+        .prepare(r#"SELECT "table", cid, quote(val), col_version, db_version, seq, cl FROM crsql_changes ORDER BY 1, 2"#)
+        .unwrap()
+        .query_map([], |r| Ok(format!("{}.{}={} cv{} dbv{} seq{} cl{}", r.get::<_, String>(0)?, r.get::<_, String>(1)?, r.get::<_, String>(2)?, r.get::<_, i64>(3)?, r.get::<_, i64>(4)?, r.get::<_, i64>(5)?, r.get::<_, i64>(6)?)))
+        .unwrap()
+        .map(|x| x.unwrap())
+        .collect();
+    println!("after ingest (batch={with_other}): {rows:?}");
+    let t: Vec<String> = c.prepare("SELECT id, a, b, quote(c) FROM t1").unwrap().query_map([], |r| Ok(format!("({},{},{},{})", r.get::<_, i64>(0)?, r.get::<_, String>(1)?, r.get::<_, i64>(2)?, r.get::<_, String>(3)?))).unwrap().map(|x| x.unwrap()).collect();
+    println!("t1: {t:?}");
 }
